@@ -98,6 +98,8 @@ def t_kwargs(t):
             kw[b] = t[a]
     if "tz" in t:
         kw["time_zone_hour"], kw["time_zone_minute"] = t["tz"]
+        if t.get("tzform") == "h" and t["tz"][1] == 0:
+            del kw["time_zone_minute"]      # offset spelled with hours only
     return kw
 
 
@@ -135,7 +137,11 @@ def t_text(t, ext):
         if "tz" in t:
             zh, zm = t["tz"]
             sg = "-" if (zh < 0 or zm < 0) else "+"
-            text += ("%s%02d:%02d" if ext else "%s%02d%02d") % (sg, abs(zh), abs(zm))
+            if t.get("tzform") == "h" and zm == 0:
+                text += "%s%02d" % (sg, abs(zh))
+            else:
+                text += ("%s%02d:%02d" if ext else "%s%02d%02d") % (
+                    sg, abs(zh), abs(zm))
     return text
 
 
@@ -147,7 +153,8 @@ def check_case(case):
              "doy" if "doy" in t else "wd" if "wd" in t else "none")
     classes = ["time/" + fields, "day/" + desig, "mode/" + cm,
                "order/" + case["order"], "route/" + case["route"],
-               "tzone/" + ("given" if "tz" in t else "unknown")]
+               "tzone/" + ("hours_only" if t.get("tzform") == "h" else
+                           "given" if "tz" in t else "unknown")]
     fail = None
     known = None
     nontrivial = False
@@ -246,6 +253,10 @@ def st_case(draw):
     route = draw(st.sampled_from(["ctor", "parse"]))
     if draw(st.booleans()) and (route == "ctor" or fields != "none"):
         t["tz"] = list(draw(G.st_tz()))
+        if draw(st.integers(0, 2)) == 0:
+            # an offset spelled with hours only (T06+05)
+            t["tz"] = [draw(st.sampled_from([5, -3, 1, -1, 12, -11, 0, 23])), 0]
+            t["tzform"] = "h"
     kw = draw(G.st_point_kw(cm, forms=("hms",)))
     # adversarial placement: start where the designator does NOT exist in the
     # current month / year, so the search has to skip over it
